@@ -66,10 +66,12 @@ ASSUMPTIONS = [
     "the tile table of the oracle is derived from the SRTM30 naming scheme (west and north "
     "edge in the name, 40 x 50 degree tiles), not read from typhon",
 ]
-MIN_NONTRIVIAL = {"quick": 120, "thorough": 1500}
-REQUIRED_COUNTERS = {"elevation.calls": 60, "native.calls": 300, "tiles.calls": 300,
-                     "tilegrid.calls": 27, "cache.get_tile.calls": 15,
-                     "fake_get_tile.calls": 60}
+MIN_NONTRIVIAL = {"quick": 3000, "thorough": 30000}
+REQUIRED_COUNTERS = {"elevation.calls": 300, "native.calls": 3000, "tiles.calls": 3000,
+                     "tilegrid.calls": 27, "cache.get_tile.calls": 20, "cache.hits": 5,
+                     "cache.misses": 5, "cache.marker_pixels": 100,
+                     "fake_get_tile.calls": 300, "elevation.tiles_2": 20,
+                     "elevation.tiles_4": 10}
 SHARD_TIMEOUT = {"quick": 600, "thorough": 5400}
 
 N_ELEV_SHARDS = 14
@@ -77,8 +79,8 @@ N_CACHE_SHARDS = 2
 
 
 def shards(tier, seed):
-    n_elev = 40 if tier == "quick" else 900
-    n_cache = 8 if tier == "quick" else 160
+    n_elev = 90 if tier == "quick" else 900
+    n_cache = 12 if tier == "quick" else 160
     out = []
     for i in range(N_ELEV_SHARDS):
         out.append({"kind": "elev", "seed": seed, "shard": i, "n": n_elev})
@@ -282,11 +284,6 @@ def judge_vectors(rect, lats, lons):
     return info, problems
 
 
-def block_rect(k0, nrow, j0, ncol):
-    """the block's own bounds as exact Fractions (lat_min, lon_min, lat_max, lon_max)"""
-    return [90 - F(k0 + nrow, 120), -180 + F(j0, 120), 90 - F(k0, 120), -180 + F(j0 + ncol, 120)]
-
-
 def block_tiles(k0, nrow, j0, ncol):
     """tiles that hold at least one cell of the block (integer arithmetic)"""
     from vt.models import srtm_model as m
@@ -295,6 +292,21 @@ def block_tiles(k0, nrow, j0, ncol):
         r0, c0 = m.tile_origin(name)
         if max(r0, k0) < min(r0 + m.TILE_ROWS, k0 + nrow) and \
                 max(c0, j0) < min(c0 + m.TILE_COLS, j0 + ncol):
+            out.add(name)
+    return out
+
+
+def block_neighbours(k0, nrow, j0, ncol):
+    """tiles that hold a cell of the block or touch it along a border or corner.  elevation()
+    recomputes the block bounds in double (e.g. 60.00416666666667 - dlon/2 =
+    59.99999999999999) before it asks get_tiles, so a touching neighbour may legitimately be
+    named for *that* rectangle; no cell may be taken from it (decided by the value check)."""
+    from vt.models import srtm_model as m
+    out = set()
+    for name, *_ in m.TILES:
+        r0, c0 = m.tile_origin(name)
+        if max(r0, k0) <= min(r0 + m.TILE_ROWS, k0 + nrow) and \
+                max(c0, j0) <= min(c0 + m.TILE_COLS, j0 + ncol):
             out.add(name)
     return out
 
@@ -391,18 +403,17 @@ def check_elevation(rec, case, fake):
                     detail["looks_like"] = "shifted by (%d,%d)" % (dk, dj)
         viol(key, detail)
     else:
-        # tiles asked for: exactly those holding a cell of the block, each once
-        if sorted(requests) != sorted(must_tiles):
-            extra = sorted(set(requests) - must_tiles)
-            # a tile whose border the block touches within the band is a don't-care
-            _, may = m.expected_tiles([float(x) for x in block_rect(k0, nrow, j0, ncol)])
-            dup = len(requests) != len(set(requests))
-            if dup or set(requests) - must_tiles - may or must_tiles - set(requests):
-                viol("srtm-tiles-requested", {"requests": requests, "extra": extra,
-                                              "tiles_of_block": sorted(must_tiles)})
+        # tiles asked for: those holding a cell of the block, each once; a neighbour that
+        # merely touches the block is a don't-care (see block_neighbours)
+        near = block_neighbours(k0, nrow, j0, ncol)
+        if len(requests) != len(set(requests)) or not (must_tiles <= set(requests) <= near):
+            viol("srtm-tiles-requested", {"requests": requests,
+                                          "tiles_of_block": sorted(must_tiles),
+                                          "touching": sorted(near - must_tiles)})
+        if set(requests) - must_tiles:
+            rec.count("elevation.touching_neighbour_requested", len(set(requests) - must_tiles))
     if not keys:
         fl = align_flags(rect)
-        must_r, _ = m.expected_tiles(rect)
         if not all(fl) or len(must_tiles) > 1 or case.get("cls") in (
                 "touch", "pm180", "top90", "bottom60", "strip", "wholetile"):
             rec.nontriv(["elev", case.get("cls"), len(must_tiles), fl], rect)
@@ -689,10 +700,9 @@ def check_cache(rec, case):
                 if k0 is None or j0 is None:
                     continue            # the vector clauses are decided in the elev shards
                 need = block_tiles(k0, len(lats), j0, len(lons))
-                # a neighbour whose border the block touches (to within the band) is a
-                # don't-care of get_tiles, hence also of the downloads
-                _, may = m.expected_tiles(
-                    [float(x) for x in block_rect(k0, len(lats), j0, len(lons))])
+                # a neighbour whose border the block touches is a don't-care of the rectangle
+                # elevation() hands to get_tiles, hence also of the downloads
+                may = block_neighbours(k0, len(lats), j0, len(lons)) - need
                 want = need - present
                 if len(new) != len(set(new)) or not (want <= set(new) <= want | (may - present)):
                     viol("srtm-cache-download", {"step": step, "op": op, "downloaded": new,
